@@ -48,7 +48,7 @@ func init() {
 		New:      func() any { return &C03Case{} },
 		Check:    func(c any) Result { return checkC03(c.(*C03Case)) },
 		Quick:    2500,
-		Thorough: 15000,
+		Thorough: 200000,
 	})
 }
 
